@@ -144,13 +144,24 @@ func VerifC17Sio() {
 		verif.Assert("fires-at-most-once-per-accepted-timer", count[id] <= acc[id])
 	}
 	// an accepted short timer that nobody cancelled or replaced has fired by now (exactly once)
-	for _, r := range reqs {
+	for i, r := range reqs {
 		if r.add && r.err == nil && r.due.Before(time.Now().UTC().Add(-50*time.Millisecond)) {
 			cancelled := false
-			for _, r2 := range reqs {
-				if r2 != r && r2.id == r.id && r2.err == nil && r2.at.After(r.at) && r2.at.Before(r.due) {
+			for j, r2 := range reqs {
+				// a later request (in program order) for the same id, made before the timer was due
+				if j > i && r2.id == r.id && r2.err == nil && r2.at.Before(r.due) {
 					cancelled = true // cancelled or replaced before it was due
 				}
+			}
+			// the handler's own make request replaces a pending timer of that id as well
+			hid := ""
+			if handlerDone && handlerMode == 1 {
+				hid = "t1"
+			} else if handlerDone && handlerMode == 2 {
+				hid = "t2"
+			}
+			if hid == r.id && !handlerDue.Add(-c17Long).After(r.due) {
+				cancelled = true
 			}
 			if !cancelled {
 				verif.Assert("accepted-timer-fires", count[r.id] >= 1)
